@@ -27,6 +27,30 @@ CHECKS = {
     design_ref="DESIGN.md §6 C07",
     note="As C06. Object identity is the time stamp set by the harness.",
     technique="TLA+ session specs + TLC invariants + M1 edge replay + seeded schedules"),
+ "C08": dict(
+    category="model_checking",
+    text=("Truncation.tla defines, from the container extents in the file and the object extents in the stream, the "
+          "objects a reader must deliver for a cut at offset T, when open() may throw, and Monotone/Complete; TLC "
+          "evaluates it for EVERY offset 0..size of each concrete file (levels 0/6 quick, 0/1/6/9 thorough; container "
+          "sizes making objects span containers; final and initial header). Every cut file is then read by the real "
+          "File under a seeded schedule of the controlled scheduler (exact hang verdict) and throws/ids/eof flags/close "
+          "are compared with the spec's vector. Cut configurations are additionally model-checked for all "
+          "interleavings in ReadSession and edge-replayed."),
+    design_ref="DESIGN.md §6 C08",
+    note="One seeded schedule per offset (all interleavings only for the small M1 configurations). zlib trusted.",
+    technique="TLA+ function spec evaluated by TLC for all crash points + vector replay (M3) + session M1"),
+ "C09": dict(
+    category="model_checking",
+    text=("Resync.tla models ObjectHeaderBase::read's signature scan as an automaton over {L,O,B,J,x}; TLC enumerates "
+          "every filler string up to length 6 (quick) / 8 (thorough) that does not contain the signature and checks "
+          "FindsFirstSignature; every one of these fillers is executed on the real ObjectHeaderBase::read over a real "
+          "UncompressedFile (end position compared). ReadSession carries the same automaton: configurations with "
+          "partial-signature filler and unknown objects (all residues mod 4, reserved/zero/>131 codes) between known "
+          "objects and across container boundaries are model-checked for all interleavings (DoneDeliveredAll) and "
+          "edge-replayed; real-scale files over 12 unknown codes x 6-7 sizes under seeded schedules."),
+    design_ref="DESIGN.md §6 C09",
+    note="The 5-letter alphabet abstraction relies on the scan comparing only against the bytes of 'LOBJ'.",
+    technique="TLA+ automaton + TLC exhaustive enumeration + vector replay (M3) + session M1 edge replay"),
  "C11": dict(
     category="model_checking",
     text=("Ownership ghost in the session specs (NoStaleAccess, Accounted, AllDeleted) checked by TLC for all "
